@@ -221,7 +221,41 @@ pub fn build(s: &Spec) -> Foreign {
         3 => Some(META_SPACED.as_bytes()),
         _ => Some(META_OBJECT.as_bytes()),
     };
-    encode_foreign(&root, &data, meta, s.comp, &lay, header_variant(s.hv))
+    let mut f = encode_foreign(&root, &data, meta, s.comp, &lay, header_variant(s.hv));
+    if s.hv % 4 == 3 {
+        // the specification allows a writer to leave the three statistics at 0 ("unknown")
+        f.header.n_addressed = 0;
+        f.header.n_entries = 0;
+        f.header.n_contents = 0;
+        let hb = f.header.encode();
+        f.bytes[..127].copy_from_slice(&hb);
+    }
+    f
+}
+
+/// A mixed root directory in which the 'contiguous' offset shorthand (0) is used across entry kinds:
+/// the leaf pointer starts where the preceding tile entry ends (5), and the tile entry behind the pointer
+/// starts where the pointer ends (5 + leaf length). A conforming encoder writes 0 for both.
+pub fn mixed_shorthand(comp: u8) -> Foreign {
+    use crate::spec::archive::Node;
+    let lay = Layout { order: ORDERS[0], gap: 0, root_gap: false, leaves_child_first: false, leaf_gap: 5 };
+    let build_with = |b_off: u64| {
+        let root = vec![
+            Node::Tile(SEntry::new(0, 0, 5, 1)),
+            Node::Leaf(10, vec![Node::Tile(SEntry::new(10, 20, 3, 1)), Node::Tile(SEntry::new(12, 23, 2, 2))]),
+            Node::Tile(SEntry::new(50, b_off, 4, 1)),
+        ];
+        let data: Vec<u8> = (0..200u32).map(|i| b'a' + (i % 26) as u8).collect();
+        encode_foreign(&root, &data, Some(b"{}"), comp, &lay, header_variant(1))
+    };
+    let first = build_with(100);
+    let ptr = first.dirs[0].1[1];
+    assert_eq!(ptr.offset, 5, "HARNESS: leaf expected at offset 5 of the leaf section");
+    let f = build_with(ptr.offset + u64::from(ptr.length));
+    // the shorthand must really be in use in the encoded root
+    let re = crate::spec::dir::encode(&f.dirs[0].1);
+    debug_assert!(re.ends_with(&[1, 0, 0]), "HARNESS: root offsets should encode as [1,0,0], got {re:?}");
+    f
 }
 
 pub fn expected_meta(s: &Spec) -> serde_json::Map<String, Value> {
